@@ -776,6 +776,24 @@ def f_lazy_generators():
     return first, seen, log, a, r, next(b), next(iter(_walk([], [])), 'empty')
 
 
+class _EvA(NamedTuple):
+    key: str
+    source: list
+
+
+class _EvB(NamedTuple):
+    source: list
+
+
+_EvAny = typing.Union[_EvA, _EvB]
+
+
+def f_namedtuple_isinstance():
+    evs = [_EvB([1]), _EvA('k', [2]), _EvB([3])]
+    kinds = ['B' if isinstance(e, _EvB) else 'A' for e in evs]
+    return kinds, [isinstance(e, _EvA) for e in evs], [isinstance(e, tuple) for e in evs], isinstance(evs[0], (_EvA, _EvB)), [e.source for e in evs], evs[1].key, type(evs[1]).__name__
+
+
 def f_str_bits():
     s = bin(0b101101)[2:]
     return s, s.zfill(8), int(s[::-1], 2), s.count('1'), s.rfind('1'), s[:3] + '0' * 2, '{:08b}'.format(5), f'{5:08b}'[-3:], ''.join('1' if c == '0' else '0' for c in s)
